@@ -481,9 +481,8 @@ func runCase(cs *Case, traceRoot string, seq int, recMode string) (lines []rec) 
 	ctxDescr := []rec{}
 
 	envMu.Lock()
-	if recMode == "file" {
-		os.Setenv("PGO_TRACE_DIR", caseDir)
-	}
+	// every context creates its log file in PGO_TRACE_DIR (also when SetTraceRecorder replaces the recorder)
+	os.Setenv("PGO_TRACE_DIR", caseDir)
 	for i := 1; i <= cs.N; i++ {
 		c := &cctx{idx: i, arch: archOf(i), self: tla.MakeNumber(int32(i)), g: &gate{arrive: make(chan string), grant: make(chan bool)}, done: make(chan error, 1)}
 		var secs []distsys.MPCalCriticalSection
@@ -564,7 +563,7 @@ func runCase(cs *Case, traceRoot string, seq int, recMode string) (lines []rec) 
 	}
 	envMu.Unlock()
 	if len(lines) > 0 { // infra failure while setting up
-		return append([]rec{{"e": "case", "id": cs.ID, "seq": seq}}, lines...)
+		return append([]rec{{"e": "case", "id": cs.ID, "seq": seq, "prog": cs}}, lines...)
 	}
 	lines = append(lines, rec{"e": "case", "id": cs.ID, "seq": seq, "rec": recMode, "ctxs": ctxDescr, "init": initStore, "n": cs.N, "prog": cs})
 
@@ -696,9 +695,7 @@ func runCase(cs *Case, traceRoot string, seq int, recMode string) (lines []rec) 
 		end["diverged"] = diverged
 	}
 	lines = append(lines, end)
-	if recMode == "file" {
-		os.RemoveAll(caseDir)
-	}
+	os.RemoveAll(caseDir)
 	return lines
 }
 
@@ -731,7 +728,7 @@ func main() {
 			panic(err)
 		}
 	}
-	log.SetOutput(io.Discard)
+	log.SetOutput(os.Stderr)
 	fh, err := os.Create(*outF)
 	if err != nil {
 		panic(err)
@@ -777,11 +774,11 @@ func main() {
 		}
 		seq := 0
 		for r := 0; r < *reps; r++ {
-			for _, c := range cases {
+			for ci, c := range cases {
 				seq++
 				rm := *recMode
-				if rm == "alt" {
-					rm = []string{"file", "mem"}[seq%2]
+				if rm == "alt" { // every case meets both recorders when reps >= 2
+					rm = []string{"file", "mem"}[(ci+r)%2]
 				}
 				jobs <- job{c, seq, rm}
 			}
